@@ -54,6 +54,7 @@ type Mix struct {
 const (
 	nA = 24 // pre-populated int64 keys a00..
 	nM = 6  // pre-populated msgpack-map keys m0..
+	nU = 3  // pre-populated uint32-slice keys u0.. (plus c0,c1 uint32 counters and f0,f1 float64 counters)
 )
 
 func mpInt64(v int64) []byte {
@@ -114,6 +115,27 @@ func step(e *env, path string, g, i int) error {
 		_, err := gw.IncrementInt64(ctx, rig.Wire(&hydrapb.IncrementInt64Request{IslandID: 1, SwampName: sw, Key: fmt.Sprintf("a%02d", i%4), IncrementBy: 1,
 			SetIfExist: &hydrapb.IncrementRequestMetadata{UpdatedAt: &t}}))
 		return err
+	case "inc_u32":
+		_, err := gw.IncrementUint32(ctx, rig.Wire(&hydrapb.IncrementUint32Request{IslandID: 1, SwampName: sw, Key: fmt.Sprintf("c%d", i%2), IncrementBy: 1}))
+		return err
+	case "inc_f64":
+		_, err := gw.IncrementFloat64(ctx, rig.Wire(&hydrapb.IncrementFloat64Request{IslandID: 1, SwampName: sw, Key: fmt.Sprintf("f%d", i%2), IncrementBy: 0.5}))
+		return err
+	case "u32_push": // appends to a uint32 slice record
+		_, err := gw.Uint32SlicePush(ctx, rig.Wire(&hydrapb.AddToUint32SlicePushRequest{IslandID: 1, SwampName: sw,
+			KeySlicePairs: []*hydrapb.KeySlicePair{{Key: fmt.Sprintf("u%d", i%nU), Values: []uint32{uint32(1000 + i), uint32(5000 + i)}}}}))
+		return err
+	case "u32_del": // removes values pushed earlier (never the pre-populated ones: an emptied slice deletes the record)
+		_, err := gw.Uint32SliceDelete(ctx, rig.Wire(&hydrapb.Uint32SliceDeleteRequest{IslandID: 1, SwampName: sw,
+			KeySlicePairs: []*hydrapb.KeySlicePair{{Key: fmt.Sprintf("u%d", i%nU), Values: []uint32{uint32(1000 + i - 2*nU), uint32(5000 + i - nU)}}}}))
+		return err
+	case "u32_read":
+		if i%2 == 0 {
+			_, err := gw.Uint32SliceSize(ctx, rig.Wire(&hydrapb.Uint32SliceSizeRequest{IslandID: 1, SwampName: sw, Key: fmt.Sprintf("u%d", i%nU)}))
+			return err
+		}
+		_, err := gw.Uint32SliceIsValueExist(ctx, rig.Wire(&hydrapb.Uint32SliceIsValueExistRequest{IslandID: 1, SwampName: sw, Key: fmt.Sprintf("u%d", i%nU), Value: uint32(1000 + i)}))
+		return err
 	case "patch":
 		_, err := gw.PatchTreasures(ctx, rig.Wire(&hydrapb.PatchTreasuresRequest{IslandID: 1, SwampName: sw, CreateIfNotExist: true,
 			Patches: []*hydrapb.TreasurePatch{{Key: fmt.Sprintf("m%d", i%nM), Ops: []*hydrapb.PatchOp{{Op: hydrapb.PatchOp_INC, Path: "n", Value: mpInt64(1)}}}}}))
@@ -126,13 +148,13 @@ func step(e *env, path string, g, i int) error {
 		return err
 	// ---------------- readers
 	case "get":
-		_, err := gw.Get(ctx, rig.Wire(&hydrapb.GetRequest{Swamps: []*hydrapb.GetSwamp{{IslandID: 1, SwampName: sw, Keys: []string{fmt.Sprintf("a%02d", i%nA), fmt.Sprintf("m%d", i%nM)}}}}))
+		_, err := gw.Get(ctx, rig.Wire(&hydrapb.GetRequest{Swamps: []*hydrapb.GetSwamp{{IslandID: 1, SwampName: sw, Keys: []string{fmt.Sprintf("a%02d", i%nA), fmt.Sprintf("m%d", i%nM), fmt.Sprintf("u%d", i%nU), fmt.Sprintf("c%d", i%2), fmt.Sprintf("f%d", i%2)}}}}))
 		return err
 	case "getall":
 		_, err := gw.GetAll(ctx, rig.Wire(&hydrapb.GetAllRequest{IslandID: 1, SwampName: sw}))
 		return err
 	case "getbykeys":
-		_, err := gw.GetByKeys(ctx, rig.Wire(&hydrapb.GetByKeysRequest{IslandID: 1, SwampName: sw, Keys: []string{"a00", "a01", "a02", "a03", "m0", "zz"}}))
+		_, err := gw.GetByKeys(ctx, rig.Wire(&hydrapb.GetByKeysRequest{IslandID: 1, SwampName: sw, Keys: []string{"a00", "a01", "a02", "a03", "m0", "u0", "u1", "c0", "f0", "zz"}}))
 		return err
 	case "count":
 		_, err := gw.Count(ctx, rig.Wire(&hydrapb.CountRequest{Swamps: []*hydrapb.CountRequest_SwampIdentifier{{IslandID: 1, SwampName: sw}}}))
@@ -188,8 +210,8 @@ func step(e *env, path string, g, i int) error {
 	return fmt.Errorf("unknown path %q", path)
 }
 
-var Writers = []string{"set_new", "set_upd", "inc", "patch", "del", "shift"}
-var Readers = []string{"get", "getall", "getbykeys", "count", "exists", "idx_key", "idx_ctime", "idx_utime", "idx_exp", "idx_val", "stream", "fstream", "fstream_cold"}
+var Writers = []string{"set_new", "set_upd", "inc", "inc_u32", "inc_f64", "u32_push", "u32_del", "patch", "del", "shift"}
+var Readers = []string{"get", "getall", "getbykeys", "count", "exists", "idx_key", "idx_ctime", "idx_utime", "idx_exp", "idx_val", "stream", "fstream", "fstream_cold", "u32_read"}
 
 func child(mixFile, outFile string) error {
 	var m Mix
@@ -237,6 +259,24 @@ func child(mixFile, outFile string) error {
 		}
 		for i := 0; i < nM; i++ {
 			if err := setMap(e, sw, fmt.Sprintf("m%d", i), int64(i)); err != nil {
+				return err
+			}
+		}
+		for i := 0; i < nU; i++ {
+			base := make([]uint32, 24)
+			for j := range base {
+				base[j] = uint32(j + 1)
+			}
+			if _, err := r.GW.Uint32SlicePush(context.Background(), rig.Wire(&hydrapb.AddToUint32SlicePushRequest{IslandID: 1, SwampName: sw,
+				KeySlicePairs: []*hydrapb.KeySlicePair{{Key: fmt.Sprintf("u%d", i), Values: base}}})); err != nil {
+				return err
+			}
+		}
+		for i := 0; i < 2; i++ {
+			if _, err := r.GW.IncrementUint32(context.Background(), rig.Wire(&hydrapb.IncrementUint32Request{IslandID: 1, SwampName: sw, Key: fmt.Sprintf("c%d", i), IncrementBy: 1})); err != nil {
+				return err
+			}
+			if _, err := r.GW.IncrementFloat64(context.Background(), rig.Wire(&hydrapb.IncrementFloat64Request{IslandID: 1, SwampName: sw, Key: fmt.Sprintf("f%d", i), IncrementBy: 1.5})); err != nil {
 				return err
 			}
 		}
